@@ -223,16 +223,64 @@ def run_fx(c) -> CaseResult:
     return res
 
 
+# ------------------------------------------------------------------ the library's leaf-wrapping tracer: gradients too
+
+
+@st.composite
+def leaf_cases(draw, tier):
+    prog = draw(dsl.track_programs(max_ops=8))
+    if prog["ret"]["kind"] == "tuple":
+        prog["ret"] = dict(kind="dot", var=prog["ret"]["vars"][0])
+    return dict(prog=prog, seed=draw(st.integers(0, 10**6)))
+
+
+def run_leaf(c) -> CaseResult:
+    from unit_scaling.utils import _DeepTracer
+    res = CaseResult()
+    prog = c["prog"]
+    m = dsl.build_module(prog, c["seed"])
+    inputs = dsl.make_inputs(prog, c["seed"])
+    order = dsl.forward_args(prog)
+
+    def run(f):
+        ins = [inputs[k].clone().requires_grad_() if inputs[k].is_floating_point() else inputs[k].clone() for k in order]
+        for p in m.parameters():
+            p.grad = None
+        y = f(*ins)
+        y.backward()
+        return y.detach().clone(), [None if (not t.is_floating_point() or t.grad is None) else t.grad.clone() for t in ins], \
+            [None if p.grad is None else p.grad.clone() for p in m.parameters()]
+    y0, gi0, gp0 = run(m)
+    try:
+        tracer = _DeepTracer()
+        graph = tracer.trace(m)
+        gm = fx.GraphModule(tracer.root, graph)
+        y1, gi1, gp1 = run(gm)
+    except Exception as e:  # noqa: BLE001
+        res.fail(exc_bucket("C20.leaf-tracer.raises", e).replace("outside-library", "in-torch")[:300], f"{type(e).__name__}: {str(e)[:300]}\n{m._verif_source}")
+        return res
+    if not close(y1, y0, 2e-5):
+        res.fail("C20.leaf-tracer.value", f"graph traced with the library's leaf-wrapping tracer differs from eager in the forward value\n{m._verif_source}")
+    for a, b in list(zip(gi1, gi0)) + list(zip(gp1, gp0)):
+        if not close(a, b, 2e-4):
+            res.fail("C20.leaf-tracer.grad", f"graph traced with the library's leaf-wrapping tracer delivers different gradients than eager\n{m._verif_source}")
+            break
+    res.nontrivial = True
+    res.labels.append("leaf-tracer")
+    return res
+
+
 CHECK = Check(
     id="C20",
     parts=[Part("functions", run_fn, strategy=fn_cases, budget={"quick": 120, "thorough": 1500}),
            Part("modules", run_mod, strategy=mod_cases, budget={"quick": 50, "thorough": 600}),
            Part("compositions", run_comp, strategy=comp_cases, budget={"quick": 16, "thorough": 200}),
+           Part("leaf-tracer", run_leaf, strategy=leaf_cases, budget={"quick": 60, "thorough": 1200}),
            Part("fx", run_fx, strategy=fx_cases, budget={"quick": 200, "thorough": 3000})],
     rule=("functions: every public function with C01's shapes / hyper-parameters / constraints in float32, float64, bfloat16, eager vs "
           "torch.compile(fullgraph=True) after torch._dynamo.reset(), backend aot_eager (quick) and inductor (1/13 of thorough cases); outputs "
           "and all gradients for the same upstream gradient within the dtype tolerance. modules: C08's module configurations compiled as "
-          "modules. compositions: User-Guide hand conversions of random DSL programs (2-6 unit-scaled ops) compiled as plain functions. fx: "
+          "modules. compositions: User-Guide hand conversions of random DSL programs (2-6 unit-scaled ops) compiled as plain functions. leaf-tracer: DSL modules (incl. direct U.scale_fwd / U.scale_bwd calls) traced with the library's own leaf-wrapping tracer, forward values and all gradients vs eager. fx: "
           "fx.symbolic_trace + GraphModule forward values (ops whose Python-level shape arithmetic plain fx cannot trace are counted, not failed). "
           "Stochastic configurations (dropout p>0 in training) are excluded: eager and compiled RNG streams are not comparable. "
           "Non-trivial = constraint None (distinct forward/backward factors) or a non-float32 dtype; modules/compositions/fx always."),
